@@ -81,12 +81,26 @@ are len(T) bytes and re-parse to the same values; assigning ANY leaf (the zero-s
 with that leaf replaced; keyword / positional / assigned constructions from the parsed values are == (hash equal when hashable), dump
 alike, bool == any(fields); T() is len(T) zero bytes; partial constructions equal T() with those fields assigned and dump the parsed
 dump restricted to the given fields' masks; one-bit-differing parses are !=.
+
+Assignments that compare equal but encode differently (harness/v10_c17.py): T a structure OR a union of 2..5 members (integers, float16 /
+float / double, enums with an alias-valued member / a flag, char, char[k], integer / enum / float arrays, nested structures and arrays of
+them; at least one float; packed / aligned x compiled / interpreted x endianness), used on its own and INSIDE `struct O { uint8 pre; T t;
+uint16 post; }`, `struct A { T ts[2]; uint8 post; }` and `union W { T t; uint64 q; }`; instances from T(), keyword construction and parsing
+through the class call with bytes / bytearray / memoryview / a stream, `.read` and `.reads`.  Histories of 3..8 assignments whose value is
+mostly == to the member's CURRENT value but another encoding or another object: -0.0 over 0.0 and back, 0 / False over -0.0, an int / True
+over an integral float, True over 1, an enum member / cstruct integer / int subclass over its integer, a new or alias-named enum member, a
+new bytes / bytearray / memoryview of equal content, the same list after an in-place change (`x.a[i] = n; x.a = x.a`) or an equal copy of
+it, lists holding bools / -0.0 for equal elements, the same nested structure (a union's proxy) after a field was assigned through it, a
+fresh equal structure, one whose zero float field has the other sign.  After every assignment the dump equals the dump before with
+exactly that member's bytes (C layout rule computed by the harness) replaced by the standard encoding of the ASSIGNED value, bytes(x) /
+x.write(fh) agree, every member of T (a union's other members) holds what the dump holds at its bytes, the instance is == to the one parsed
+from its dump, and T(m=v) / T(v) are == to, hash like and dump like the default instance with m assigned (zero bytes elsewhere).
 """
 from __future__ import annotations
 
 import itertools
 
-from .. import defs, impl, refimpl, s6_c17, u4_c17, v4_c17, v5_c17, v6_c17, v9_c17, v9_c17b
+from .. import defs, impl, refimpl, s6_c17, u4_c17, v4_c17, v5_c17, v6_c17, v9_c17, v9_c17b, v10_c17
 from ..common import Case, Result, mkrng
 from ..structprops import rand_bytes
 
@@ -139,7 +153,17 @@ def run(env) -> Result:
                 "elements; bit masks of every leaf from the reader's answers to one-bit inputs: dumps / bytes() / write() of parsed instances "
                 "are len(T) bytes and re-parse to the same values, assigning any leaf (zero-sized ones included, whole nested members too) "
                 "changes only that leaf's bits, stores the donor's bits and re-parses to the old values with that leaf replaced; keyword / "
-                "positional / assigned / partial constructions, ==, hash (when hashable), bool, T() as zero bytes, one-bit-differing pairs. distinct = "
+                "positional / assigned / partial constructions, ==, hash (when hashable), bool, T() as zero bytes, one-bit-differing pairs. v10_c17: "
+                "structures AND unions of 2..5 members (ints, float16 / float / double, enums with aliases, flag, char, char[k], int / enum / float "
+                "arrays, nested structures and arrays of them; packed/aligned x compiled/interpreted x endianness), on their own and inside a "
+                "structure member, an array member and a union member (proxy); instances from T(), keywords, class call with bytes / bytearray / "
+                "memoryview / stream, .read, .reads; histories of 3..8 assignments of values == to the member's current value but of another "
+                "encoding or identity (-0.0 / 0.0 / 0 / False, int / True over float, True / enum member / cstruct int / int subclass over int, "
+                "new / alias enum member, equal bytes / bytearray / memoryview, the same list after an in-place change or an equal copy, lists "
+                "with bools / -0.0, the same nested structure after a field assignment through it, fresh equal structures, signed zero inside): "
+                "the dump is the dump before with exactly that member's bytes (layout computed by the harness) replaced by the encoding of the "
+                "assigned value, bytes() / write() agree, all members of T (a union's other members) hold what the dump holds, x == parse(dump), "
+                "T(m=v) / T(v) ==, hash and dump like the default instance with m assigned. distinct = "
                 "(definition, instance bytes, operation); non-trivial = >= 2 fields")
     dc = impl.dc()
     rnd = mkrng(env["seed"], "c17")
@@ -308,6 +332,8 @@ def run(env) -> Result:
     v9_c17.run(env, res, viol, mkrng(env["seed"], "c17:v9"), 25 if tier == "quick" else 600)
     # zero-sized members (void, empty structures, T x[0], char c[0]) between bit-fields of one unit, between members, first and last
     v9_c17b.run(env, res, viol, mkrng(env["seed"], "c17:v9b"), 24 if tier == "quick" else 240)
+    # assignments of values that are == to the member's current value but encode differently / are other objects, structures AND unions
+    v10_c17.run(env, res, viol, mkrng(env["seed"], "c17:v10"), 250 if tier == "quick" else 6000)
     res.sample({"field_counts": counts, "colliding_names": RISKY[:8]})
     return res
 
